@@ -84,3 +84,61 @@ Theorem C17_generated_request_time_code_leaves_the_application_alone :
           request_time_methods = true.
 Proof. vm_compute. repeat split; reflexivity. Qed.
 Print Assumptions C17_generated_request_time_code_leaves_the_application_alone.
+
+(* ---- generated configuration accessors (translator harness/py2v_config.py
+   -> gen/ConfigGen.v, regenerated from poorwsgi/wsgi.py on every run): the
+   property getters and setters of the configuration keys of Application
+   and the configuration literal of __init__ are the configuration map of
+   model/Config.v (proofs/ConfigGenEq.v); and the census of every store
+   into the configuration dictionary (or escape of it) in wsgi.py finds only
+   __init__ and the setters. *)
+Require Import PW.lib.PyConfig PW.model.Config PW.proofs.ConfigProofs
+  PW.gen.ConfigGen PW.proofs.ConfigGenEq.
+
+Theorem C17_generated_config_accessors_are_model :
+  forall (ios : int_parser) (k : ckey) (o : cobj) (v : cval),
+    wf o ->
+    gen_get k ios o = Some (cfg_get k (abs o)) /\
+    (gen_set k = None <-> kind k = None) /\
+    (kind k = None <->
+     In (key_name k) (gen_no_setter ++ gen_untied_setters)) /\
+    forall f, gen_set k = Some f ->
+      match f ios o v, cfg_try_set ios k v (abs o) with
+      | Some o', Some c' =>
+          (forall k', abs o' k' = c' k') /\ wf o' /\
+          (forall a key, a <> ATTR \/ key <> key_name k ->
+                         o' a key = o a key)
+      | None, None => True
+      | _, _ => False
+      end.
+Proof.
+  intros ios k o v H. split; [now apply config_get_eq|].
+  split; [apply setters_agree|]. split; [apply setters_agree|].
+  intros f Hf. now apply config_set_eq.
+Qed.
+Print Assumptions C17_generated_config_accessors_are_model.
+
+Theorem C17_generated_initial_config_is_model :
+  (forall k, dict_lookup gen_init_config (key_name k) = Some (cfg_init k)) /\
+  (forall s, In s (map fst gen_init_config) -> exists k, s = key_name k) /\
+  gen_config_attr = ATTR /\
+  forall o, (forall key, o ATTR key = dict_lookup gen_init_config key) ->
+            wf o /\ forall k, abs o k = cfg_init k.
+Proof.
+  destruct config_init_eq as [A [B C]]. repeat split; auto;
+    now apply config_init_abs.
+Qed.
+Print Assumptions C17_generated_initial_config_is_model.
+
+Theorem C17_generated_config_writers_are_the_setters :
+  (forall w, In w config_writers -> In w allowed_config_writers) /\
+  forallb (fun w => is_setter_or_init (fst w)) config_writers = true /\
+  forallb (fun w => is_setter_or_init (fst w)) allowed_config_writers = true /\
+  In ("wsgi.Application.__init__", "arg0.__config = <dict>") config_writers /\
+  In ("wsgi.Application.debug.setter", "arg0.__config['debug']")
+     config_writers.
+Proof.
+  split; [apply config_writers_ok_spec; vm_compute; reflexivity|].
+  vm_compute. intuition.
+Qed.
+Print Assumptions C17_generated_config_writers_are_the_setters.
